@@ -674,6 +674,44 @@ def configure(repo: Repo, rep):
         rep.violation("R-CONFIGURE", f, fl[0].ast, "state().flags can be assigned before / without read_config(): the pyproject defaults are ignored on that path", construct="read_config-late")
     else:
         rep.ok("R-CONFIGURE", f, rc[0].ast, "read_config() precedes the use of the default flags")
+    # ... and it is the configuration of the *project*: the file handed to read_config() is searched from pytest's rootdir
+    # (config.rootpath / inipath), not from where pytest happened to be started
+    for n_ in rc:
+        for c_ in node_calls(n_):
+            if not norm(c_.func).endswith("read_config") or not c_.args:
+                continue
+            srcs = set()
+            seen_n = set()
+            todo = [x.id for x in ast.walk(c_.args[0]) if isinstance(x, ast.Name)]
+            exprs = [c_.args[0]]
+            while todo:
+                nm = todo.pop()
+                if nm in seen_n:
+                    continue
+                seen_n.add(nm)
+                for d in defs_of(cfg, nm):
+                    dv = def_value(d, nm)
+                    if dv is None and d.kind == "cond" and isinstance(d.ast, ast.NamedExpr):
+                        dv = d.ast.value
+                    if dv is None:
+                        for x in ast.walk(d.ast) if d.ast is not None else []:
+                            if isinstance(x, ast.NamedExpr) and isinstance(x.target, ast.Name) and x.target.id == nm:
+                                dv = x.value
+                    if dv is not None:
+                        exprs.append(dv)
+                        todo += [x.id for x in ast.walk(dv) if isinstance(x, ast.Name)]
+            attrs_ = {x.attr for e_ in exprs for x in ast.walk(e_) if isinstance(x, ast.Attribute)}
+            if attrs_ & {"rootpath", "rootdir", "inipath", "inifile"}:
+                rep.ok("R-CONFIGURE", f, c_, "the configuration is searched from pytest's rootdir")
+            elif attrs_ & {"invocation_params", "invocation_dir", "cwd", "getcwd", "startpath", "startdir"} or not attrs_:
+                rep.violation(
+                    "R-CONFIGURE",
+                    f,
+                    c_,
+                    f"`{short(c_, 50)}`: the pyproject.toml is searched from {sorted(attrs_ & {'invocation_params', 'invocation_dir', 'cwd', 'getcwd', 'startpath', 'startdir'}) or 'a fixed path'}, not from pytest's rootdir: started outside the project "
+                    "(`pytest proj/tests`), the project's default-flags / format-command / storage-dir are not read - files are formatted with another formatter than the project's, approvals configured there are lost",
+                    construct="config-not-from-rootdir",
+                )
     lf = (flagvar,)
     rev_edges = [(c, m[1]) for c in cfg.conds() for m in [membership(c.ast, cfg, c, lf)] if m and same_item(m[0], "review")]
     dis_edges_absent = [(c, "F" if m[1] == "T" else "T") for c in cfg.conds() for m in [membership(c.ast, cfg, c, lf)] if m and same_item(m[0], "disable")]
@@ -940,6 +978,19 @@ def xfail_marker(repo: Repo, rep):
         return
     if f.name != "is_xfail":
         return
+    # agreement with pytest in the other direction: pytest evaluates the condition of the marker by truth value, so `xfail(0)` /
+    # `xfail(sys.flags.optimize)` is not an xfail; an identity test against the constant False lets such a test run inactive - what it
+    # observes is dropped from the shared snapshots (trim removes values a passing test still needs)
+    for x in body_nodes(f.node):
+        if isinstance(x, ast.Compare) and len(x.ops) == 1 and isinstance(x.ops[0], (ast.Is, ast.IsNot)) and any(isinstance(o, ast.Constant) and isinstance(o.value, bool) for o in [x.left] + x.comparators) and "args" in norm(x):
+            rep.violation(
+                "R-XFAIL-MARKER",
+                f,
+                x,
+                f"`{norm(x)}` tests the condition of the xfail marker by identity: a falsy condition that is not the object False (0, '', an int flag) counts as xfail although pytest runs the test normally - "
+                "the test is executed with inline-snapshot inactive and its observations are missing from shared snapshots",
+                construct="condition-by-identity",
+            )
     # every `return False` is under 'marker absent' or 'first argument == False'
     cfg = cfg_of(f)
     for r in cfg.stmts(ast.Return):
@@ -951,7 +1002,7 @@ def xfail_marker(repo: Repo, rep):
                 t = norm(c.ast)
                 if "xfail" in t and ((" in " in t and l == "F") or (" not in " in t and l == "T")):
                     ok = True
-                if "== False" in t and l == "T" or "is False" in t and l == "T":
+                if "== False" in t and l == "T":
                     ok = True
                 if t.startswith("not ") or "is None" in t:
                     ok = ok or l == "T"
@@ -1171,6 +1222,20 @@ def xdist_worker(repo: Repo, rep):
     ds = detectors(repo, "xdist")
     rep.floor("R-XDIST-WORKER", "xdist detectors in pytest_plugin.py", len(ds), 1)
     for f in ds:
+        # controller side: workers exist iff `-n` (numprocesses) / `--tx` says so, or the dsession plugin is registered; the
+        # distribution mode (`--dist`) may be set - by addopts - without any worker being started
+        ctrl = {x.attr for x in body_nodes(f.node) if isinstance(x, ast.Attribute)} | {x.value for x in body_nodes(f.node) if isinstance(x, ast.Constant) and isinstance(x.value, str)}
+        if ctrl & {"numprocesses", "dsession", "tx"}:
+            rep.ok("R-XDIST-WORKER", f, f.node.body[0], f"{f.qualname}() decides in the controller from the option that starts workers")
+        else:
+            rep.violation(
+                "R-XDIST-WORKER",
+                f,
+                f.node,
+                f"{f.qualname}() no longer reads `numprocesses`: in the controller process it decides from something that does not say whether workers are started (e.g. `--dist loadfile` in addopts without -n) - "
+                "a plain session is refused with 'can not be combined with xdist' / runs disabled, so approved fixes are not written",
+                construct="controller-indicator",
+            )
         r = _abs_run(f.node.body, {})
         reads = any((isinstance(x, ast.Attribute) and x.attr == "workerinput") or (isinstance(x, ast.Constant) and x.value in ("workerinput", "PYTEST_XDIST_WORKER")) for x in body_nodes(f.node))
         if r[0] == "ret" and r[1] is not None:
